@@ -572,6 +572,7 @@ package xmss
 
 //@ func treeHashUpdate
 //@   reads addr[0:3]
+//@   assigns *treeHash, bdsAll(bdsState)
 //@   trusted "BDS traversal internals: only named here so that the `reads addr[0:3]` clause of bdsTreeHashUpdate can be checked transitively"
 
 // NOT CLAIMED (tag C08X is no property): the product-program lemma is well-formed and every argument of the two
